@@ -405,6 +405,49 @@ func SkipNarrow(t interface{ Skip(...interface{}) }) {
 	}
 }
 
+// guardedFor is ParallelFor with a backstop: a panic that escapes a job (the library refused or blew up on
+// something the harness took for granted) becomes a violation carrying the panic site, never a crash of the run.
+func guardedFor(r *verifmc.Run, n int, name func(i int) string, f func(i int)) {
+	verifmc.ParallelFor(n, func(i int) {
+		if p, what := verifmc.Try(func() { f(i) }); p {
+			r.Violation(fmt.Sprintf("C19|%s/%s|unexpected-panic:%s|%s", r.Prop, r.Unit, verifmc.PanicClass(what), verifmc.PanicSite(what)),
+				"job|"+name(i), fmt.Sprintf("%s: job %s: unexpected panic: %s", r.Unit, name(i), what), map[string]interface{}{"job": name(i)})
+		}
+	})
+}
+
+// boundaryName names the boundary field elements for violation keys.
+func boundaryName(f *prio.Field, v *big.Int) string {
+	switch d := new(big.Int).Sub(v, f.P); {
+	case v.Sign() >= 0 && v.Cmp(big.NewInt(2)) <= 0:
+		return v.String()
+	case d.Cmp(big.NewInt(-1)) == 0:
+		return "p-1"
+	case d.Cmp(big.NewInt(-2)) == 0:
+		return "p-2"
+	case d.Sign() == 0:
+		return "p"
+	case d.Cmp(big.NewInt(1)) == 0:
+		return "p+1"
+	case v.BitLen() == 8*f.Size && new(big.Int).Add(v, big.NewInt(1)).BitLen() > 8*f.Size:
+		return "2^" + fmt.Sprint(8*f.Size) + "-1"
+	}
+	return "other"
+}
+
+// refusedBoundary names the first boundary element of vec (for the key of a refused canonical vector).
+func refusedBoundary(f *prio.Field, vec []*big.Int) string {
+	best := "small"
+	for _, e := range vec {
+		if n := boundaryName(f, f.Mod(e)); n == "p-1" || n == "p-2" {
+			return n
+		} else if n != "other" && best == "small" {
+			best = n
+		}
+	}
+	return best
+}
+
 // Batches calls f for every ordered batch of size 0..maxLen over dom.
 func Batches(dom [][]uint64, maxLen int, f func(batch [][]uint64)) {
 	var rec func(cur [][]uint64)
@@ -525,7 +568,7 @@ func (s *Sys[M, A, V, E]) UnitAgg(r *verifmc.Run, t interface{ Fatalf(string, ..
 	r.Set("aggregators_2_to_255_complete_for", sweep)
 	r.Set("collection_histories_for", hist)
 	r.Set("collection_histories_aggregators", plan.HistoryShares)
-	verifmc.ParallelFor(len(jobs), func(ji int) {
+	guardedFor(r, len(jobs), func(ji int) string { return tag(jobs[ji].inst, jobs[ji].shares) }, func(ji int) {
 		j := jobs[ji]
 		if r.Expired() {
 			return
@@ -999,7 +1042,10 @@ func (s *Sys[M, A, V, E]) CheckEvil(r *verifmc.Run, v VDAF[M, A, V, E], ev EvilS
 	var evilBytes []byte
 	vv := arith.NewVec[V](uint(len(vec)))
 	if err := vv.UnmarshalBinary(fld.EncVec(vec)); err != nil {
-		panic("harness: cannot build the encoded measurement: " + err.Error())
+		// every entry is reduced mod p, so this is a canonical vector: the decoder refuses a valid encoding
+		r.Violation(fmt.Sprintf("C19|%s.%s.Vec.UnmarshalBinary|canonical-element-refused|%s", inst.Kind, fld.Name, refusedBoundary(fld, vec)), caseID,
+			fmt.Sprintf("%s: Vec.UnmarshalBinary refuses the canonical field vector %s: %v", tag(inst, shares), vkey, err), payload)
+		return
 	}
 	panicked, what := verifmc.Try(func() {
 		pub, in, err := ev.Shard(vv, &nonce, rnd)
@@ -1020,7 +1066,10 @@ func (s *Sys[M, A, V, E]) CheckEvil(r *verifmc.Run, v VDAF[M, A, V, E], ev EvilS
 		return
 	}
 	if shardErr != nil {
-		panic("harness: malicious sharder failed: " + shardErr.Error())
+		// the wrapper replaces only Encode: sharding a canonical vector can only fail inside the library (XOF sampling, proof)
+		r.Violation(key("shard-of-canonical-vector-failed"), caseID,
+			fmt.Sprintf("%s: sharding the canonical encoded measurement %s (in valid set: %v) fails: %v", tag(inst, shares), vkey, isValid, shardErr), payload)
+		return
 	}
 	if !isValid {
 		if res.AnyOutput() {
@@ -1380,7 +1429,7 @@ func (s *Sys[M, A, V, E]) UnitInvalid(r *verifmc.Run, t interface{ Fatalf(string
 	r.Set("seed_alphabet_note", "more than three aggregators: the first two entries only")
 	r.Set("product_cap", plan.ProductCap)
 	samples := make([]interface{}, len(jobs))
-	verifmc.ParallelFor(len(jobs), func(ji int) {
+	guardedFor(r, len(jobs), func(ji int) string { return tag(jobs[ji].inst, jobs[ji].shares) }, func(ji int) {
 		j := jobs[ji]
 		if r.Expired() {
 			return
@@ -1397,7 +1446,9 @@ func (s *Sys[M, A, V, E]) UnitInvalid(r *verifmc.Run, t interface{ Fatalf(string
 		}
 		ev, err := s.MakeEvil(j.inst, uint8(j.shares))
 		if err != nil {
-			panic("harness: cannot build the malicious sharder: " + err.Error())
+			r.Violation(fmt.Sprintf("C19|%s.New|admissible-rejected(internal flp)|%s", j.inst.Kind, tag(j.inst, j.shares)), "ctor-evil|"+tag(j.inst, j.shares),
+				fmt.Sprintf("%s: internal prio3.New with the package's own FLP refused admissible parameters: %v", tag(j.inst, j.shares), err), nil)
+			return
 		}
 		valid, _ := j.inst.ValidEncodedSet(plan.SetLimit)
 		nVec, firstInvalid := 0, ""
@@ -1436,4 +1487,260 @@ func (s *Sys[M, A, V, E]) UnitCtor(r *verifmc.Run, insts []prio.Inst, shares []i
 	}
 	r.RequireCounter("rows_must-fail", 1)
 	r.RequireCounter("rows_must-succeed", 1)
+}
+
+// ---------------------------------------------------------------------------------------------
+// Decoder round trip of boundary field elements in every protocol message.
+
+type codecMsg struct {
+	name  string
+	bytes []byte
+	off   int // byte offset of the field-element area
+	n     int // number of field elements
+	fresh func() message
+}
+
+// UnitCodec: for every protocol message type of an honest report, every field-element position is
+// overwritten with each boundary value. Canonical values {0, 1, p-2, p-1} are valid messages: UnmarshalBinary
+// must accept them and MarshalBinary must give the same bytes back ("every protocol message survives a
+// marshal/unmarshal round trip"). Non-canonical values {p, p+1, 2^k-1} must be refused. Seed-only
+// messages (helper input share, public share, prep message) must round-trip with all-00 and all-FF seeds.
+// Aggregate shares carrying p-1 must also unshard to the right aggregate.
+func (s *Sys[M, A, V, E]) UnitCodec(r *verifmc.Run, t interface{ Fatalf(string, ...interface{}) }, insts []prio.Inst, sharesList []int) {
+	r.Rule("for each instance and number of aggregators: the messages of one honest report (leader and helper input share, public share, prep state, prep share, prep message, " +
+		"output share, aggregate share); every field-element position x {0, 1, p-2, p-1} must decode and re-encode to the same bytes, x {p, p+1, 2^k-1} must be refused; " +
+		"seed areas all-00 / all-FF must round-trip; aggregate shares (p-1,..) + (a+1,..) must unshard to a; non-trivial = each distinct (instance, aggregators, message, position, value)")
+	s.checkOrder(t, insts[0])
+	type job struct {
+		inst   prio.Inst
+		shares int
+	}
+	var jobs []job
+	for _, i := range insts {
+		for _, sh := range sharesList {
+			jobs = append(jobs, job{i, sh})
+		}
+	}
+	var names []string
+	for _, i := range insts {
+		names = append(names, i.String())
+	}
+	r.Set("instances", names)
+	r.Set("aggregators", sharesList)
+	r.Set("accepted_values", []string{"0", "1", "p-2", "p-1"})
+	r.Set("refused_values", []string{"p", "p+1", "2^k-1"})
+	guardedFor(r, len(jobs), func(i int) string { return tag(jobs[i].inst, jobs[i].shares) }, func(ji int) {
+		j := jobs[ji]
+		inst, shares := j.inst, j.shares
+		fld := inst.Field()
+		v, err := s.Make(inst, uint8(shares))
+		if err != nil {
+			r.Violation(fmt.Sprintf("C19|%s.New|admissible-rejected|%s", inst.Kind, tag(inst, shares)), "ctor|"+tag(inst, shares), err.Error(), nil)
+			return
+		}
+		params := v.Params()
+		dom, _ := inst.Domain(8)
+		meas := dom[len(dom)-1]
+		vk, nonce, rnd := Material(params.RandSize(), r.Seed(), 3, 0)
+		pub, in, err := v.Shard(s.ToM(meas), &nonce, rnd)
+		if err != nil {
+			r.Violation(fmt.Sprintf("C19|%s.prepare|valid-shard-failed|codec|%s", inst.Kind, inst), "codec|"+tag(inst, shares), err.Error(), nil)
+			return
+		}
+		states := make([]*prio3.PrepState[V, E], shares)
+		pshares := make([]prio3.PrepShare[V, E], shares)
+		for i := 0; i < shares; i++ {
+			st, ps, err := v.PrepInit(&vk, &nonce, uint8(i), pub, in[i])
+			if err != nil {
+				r.Violation(fmt.Sprintf("C19|%s.prepare|valid-report-rejected|codec|%s", inst.Kind, inst), "codec|"+tag(inst, shares), "PrepInit: "+err.Error(), nil)
+				return
+			}
+			states[i], pshares[i] = st, *ps
+		}
+		msg, err := v.PrepSharesToPrep(pshares)
+		if err != nil {
+			r.Violation(fmt.Sprintf("C19|%s.prepare|valid-report-rejected|codec|%s", inst.Kind, inst), "codec|"+tag(inst, shares), "PrepSharesToPrep: "+err.Error(), nil)
+			return
+		}
+		out, err := v.PrepNext(states[0], msg)
+		if err != nil || out == nil {
+			r.Violation(fmt.Sprintf("C19|%s.prepare|valid-report-rejected|codec|%s", inst.Kind, inst), "codec|"+tag(inst, shares), fmt.Sprintf("PrepNext: %v", err), nil)
+			return
+		}
+		agg := v.AggregateInit()
+		v.AggregateUpdate(&agg, out)
+		mb := func(m message) []byte {
+			b, err := m.MarshalBinary()
+			if err != nil {
+				panic("MarshalBinary of an honest message: " + err.Error())
+			}
+			return b
+		}
+		L, P, VL, OL := int(params.MeasurementLength()), int(params.ProofLength()), int(params.VerifierLength()), int(params.OutputLength())
+		msgs := []codecMsg{
+			{"InputShare(leader)", mb(&in[0]), 0, L + P, func() message { return new(prio3.InputShare[V, E]).New(&params, 0) }},
+			{"PrepShare", mb(&pshares[0]), 0, VL, func() message { return new(prio3.PrepShare[V, E]).New(&params) }},
+			{"PrepState", mb(states[0]), 0, OL, func() message { return new(prio3.PrepState[V, E]).New(&params) }},
+			{"OutShare", mb(out), 0, OL, func() message { return new(prio3.OutShare[V, E]).New(&params) }},
+			{"AggShare", mb(&agg), 0, OL, func() message { return new(prio3.AggShare[V, E]).New(&params) }},
+		}
+		pm1 := new(big.Int).Sub(fld.P, big.NewInt(1))
+		accept := []*big.Int{big.NewInt(0), big.NewInt(1), new(big.Int).Sub(fld.P, big.NewInt(2)), pm1}
+		allFF := new(big.Int).Sub(new(big.Int).Lsh(big.NewInt(1), uint(8*fld.Size)), big.NewInt(1))
+		refuse := []*big.Int{fld.P, new(big.Int).Add(fld.P, big.NewInt(1)), allFF}
+		rawLE := func(x *big.Int) []byte { // little endian, NOT reduced
+			be := x.FillBytes(make([]byte, fld.Size))
+			for a, b := 0, len(be)-1; a < b; a, b = a+1, b-1 {
+				be[a], be[b] = be[b], be[a]
+			}
+			return be
+		}
+		for _, m := range msgs {
+			if len(m.bytes) < m.off+m.n*fld.Size {
+				r.Violation(fmt.Sprintf("C19|%s.%s.MarshalBinary|unexpected-length|%s", inst.Kind, m.name, inst), "codec|"+tag(inst, shares),
+					fmt.Sprintf("%s: %s marshals to %d bytes, layout expects at least %d", tag(inst, shares), m.name, len(m.bytes), m.off+m.n*fld.Size), nil)
+				continue
+			}
+			for pos := 0; pos < m.n; pos++ {
+				for _, val := range append(append([]*big.Int{}, accept...), refuse...) {
+					mustAccept := val.Cmp(fld.P) < 0
+					vn := boundaryName(fld, val)
+					caseID := fmt.Sprintf("codec|%s|%s|elem%d=%s", tag(inst, shares), m.name, pos, vn)
+					if !r.Want(caseID) {
+						continue
+					}
+					r.Eval(1)
+					r.Distinct(caseID)
+					b := append([]byte{}, m.bytes...)
+					copy(b[m.off+pos*fld.Size:], rawLE(val))
+					y := m.fresh()
+					var uerr error
+					var b2 []byte
+					if p, what := verifmc.Try(func() {
+						uerr = y.UnmarshalBinary(b)
+						if uerr == nil {
+							b2, _ = y.MarshalBinary()
+						}
+					}); p {
+						r.Violation(fmt.Sprintf("C19|%s.%s.UnmarshalBinary|panic:%s|%s", inst.Kind, m.name, verifmc.PanicClass(what), vn), caseID,
+							fmt.Sprintf("%s: %s with element %d = %s: panic: %s", tag(inst, shares), m.name, pos, vn, what), nil)
+						continue
+					}
+					payload := map[string]interface{}{"instance": inst.String(), "aggregators": shares, "message": m.name, "element": pos, "value": vn, "bytes_hex": verifmc.Hex(b)}
+					switch {
+					case mustAccept && uerr != nil:
+						r.Violation(fmt.Sprintf("C19|%s.%s.UnmarshalBinary|canonical-element-refused|%s", inst.Kind, m.name, vn), caseID,
+							fmt.Sprintf("%s: a valid %s whose field element %d is %s (%s) is refused by UnmarshalBinary: %v", tag(inst, shares), m.name, pos, vn, fld.Name, uerr), payload)
+					case mustAccept && !bytes.Equal(b, b2):
+						r.Violation(fmt.Sprintf("C19|%s.%s.UnmarshalBinary|round-trip-differs|%s", inst.Kind, m.name, vn), caseID,
+							fmt.Sprintf("%s: %s with element %d = %s does not re-marshal to the same bytes", tag(inst, shares), m.name, pos, vn), payload)
+					case !mustAccept && uerr == nil:
+						r.Violation(fmt.Sprintf("C19|%s.%s.UnmarshalBinary|noncanonical-element-accepted|%s", inst.Kind, m.name, vn), caseID,
+							fmt.Sprintf("%s: %s with the non-canonical element %d = %s is accepted", tag(inst, shares), m.name, pos, vn), payload)
+					case mustAccept:
+						r.Count("canonical_boundary_accepted", 1)
+						r.Count("accepted_in_"+m.name, 1)
+						if vn == "p-1" {
+							r.Count("p_minus_1_accepted", 1)
+						}
+					default:
+						r.Count("noncanonical_refused", 1)
+					}
+				}
+			}
+		}
+		// seed-only areas: any 32 bytes are valid
+		seedMsgs := []codecMsg{
+			{"InputShare(helper)", mb(&in[1]), 0, 0, func() message { return new(prio3.InputShare[V, E]).New(&params, 1) }},
+			{"PublicShare", mb(&pub), 0, 0, func() message { return new(prio3.PublicShare).New(&params) }},
+			{"PrepMessage", mb(msg), 0, 0, func() message { return new(prio3.PrepMessage).New(&params) }},
+		}
+		if params.JointRandLength() > 0 {
+			seedMsgs = append(seedMsgs, codecMsg{"InputShare(leader).blind", mb(&in[0]), (L + P) * fld.Size, 0, func() message { return new(prio3.InputShare[V, E]).New(&params, 0) }})
+		}
+		for _, m := range seedMsgs {
+			for _, fill := range []byte{0x00, 0xff} {
+				caseID := fmt.Sprintf("codec|%s|%s|seeds=%02x", tag(inst, shares), m.name, fill)
+				if !r.Want(caseID) {
+					continue
+				}
+				r.Eval(1)
+				r.Distinct(caseID)
+				b := append([]byte{}, m.bytes...)
+				for k := m.off; k < len(b); k++ {
+					b[k] = fill
+				}
+				y := m.fresh()
+				var uerr error
+				var b2 []byte
+				if p, what := verifmc.Try(func() {
+					uerr = y.UnmarshalBinary(b)
+					if uerr == nil {
+						b2, _ = y.MarshalBinary()
+					}
+				}); p || uerr != nil || !bytes.Equal(b, b2) {
+					r.Violation(fmt.Sprintf("C19|%s.%s.UnmarshalBinary|seed-bytes-refused-or-changed|%02x", inst.Kind, m.name, fill), caseID,
+						fmt.Sprintf("%s: %s with seed bytes all %02x: err=%v panic=%q same=%v", tag(inst, shares), m.name, fill, uerr, what, bytes.Equal(b, b2)), nil)
+					continue
+				}
+				r.Count("seed_messages_round_trip", 1)
+			}
+		}
+		// aggregate shares holding p-1 must unshard: share0 = (p-1,..), share1 = (a_k+1,..), others 0 -> aggregate a
+		caseID := fmt.Sprintf("codec|%s|unshard-with-p-1", tag(inst, shares))
+		if r.Want(caseID) {
+			r.Eval(1)
+			r.Distinct(caseID)
+			want := make([]uint64, OL)
+			v0, v1, vz := make([]*big.Int, OL), make([]*big.Int, OL), make([]*big.Int, OL)
+			for k := range want {
+				want[k] = uint64(k + 1)
+				v0[k], v1[k], vz[k] = pm1, big.NewInt(int64(k+2)), big.NewInt(0)
+			}
+			var got []uint64
+			var fail string
+			if p, what := verifmc.Try(func() {
+				aggs := make([]prio3.AggShare[V, E], shares)
+				for i := range aggs {
+					src := vz
+					if i == 0 {
+						src = v0
+					} else if i == 1 {
+						src = v1
+					}
+					a := new(prio3.AggShare[V, E]).New(&params)
+					if err := a.UnmarshalBinary(fld.EncVec(src)); err != nil {
+						fail = fmt.Sprintf("AggShare.UnmarshalBinary of aggregator %d: %v", i, err)
+						return
+					}
+					aggs[i] = *a
+				}
+				res, err := v.Unshard(aggs, 1)
+				if err != nil || res == nil {
+					fail = fmt.Sprintf("Unshard: %v", err)
+					return
+				}
+				got = s.FromA(res)
+			}); p {
+				fail = "panic: " + what
+			}
+			if fail == "" && fmt.Sprint(got) != fmt.Sprint(want) {
+				fail = fmt.Sprintf("Unshard gives %v, want %v", got, want)
+			}
+			if fail != "" {
+				r.Violation(fmt.Sprintf("C19|%s.aggregate|aggregate-shares-with-p-1-not-unsharded|%s", inst.Kind, fld.Name), caseID,
+					fmt.Sprintf("%s: valid aggregate shares (p-1,..),(a+1,..) for a=%v: %s", tag(inst, shares), want, fail), nil)
+			} else {
+				r.Count("unshard_with_p_minus_1_exact", 1)
+			}
+		}
+		if ji == 0 {
+			r.Sample(map[string]interface{}{"instance": inst.String(), "aggregators": shares, "messages": []string{"InputShare(leader)", "InputShare(helper)", "PublicShare", "PrepState", "PrepShare", "PrepMessage", "OutShare", "AggShare"},
+				"leader_share_elements": L + P, "p_minus_1_hex_le": fmt.Sprintf("%x", rawLE(pm1))})
+		}
+	})
+	r.RequireCounter("p_minus_1_accepted", 1)
+	r.RequireCounter("noncanonical_refused", 1)
+	r.RequireCounter("seed_messages_round_trip", 1)
+	r.RequireCounter("unshard_with_p_minus_1_exact", 1)
 }
